@@ -78,7 +78,7 @@ func alphabetOf(sc *Scenario) []rune {
 
 var findKinds = []int{OpMatchString, OpMatchRunes, OpFindString, OpFindRunes, OpFindStringAt, OpFindRunesAt, OpFindAllString, OpFindAllRunes,
 	OpReplace, OpReplace, OpReplaceFunc, OpSplit, OpWalk2, OpCompatMatch, OpCompatSubmatchIndex, OpCompatAllSubmatch, OpCompatAllIndex, OpCompatReader, OpGroupInfo, OpReplaceAt,
-	OpFindString, OpMatchString, OpFindAllString, OpReplace, OpSplit, OpFindRunes, OpMarshalRoundTrip, OpReplaceFuncReentrant, OpWalkMixed, OpWalkMixed}
+	OpFindString, OpMatchString, OpFindAllString, OpReplace, OpSplit, OpFindRunes, OpMarshalRoundTrip, OpReplaceFuncReentrant, OpWalkMixed, OpWalkMixed, OpReplaceFuncPanic}
 
 // multi-match calls (they hold a partial result when a later scan is abandoned)
 var multiKinds = []int{OpReplace, OpReplace, OpReplace, OpReplaceFunc, OpReplaceFuncReentrant, OpSplit, OpFindAllString, OpFindAllRunes, OpCompatAllIndex, OpFindString}
@@ -130,6 +130,8 @@ func genOp(r *rng, re int, p *pat, allowLong bool) Op {
 	case OpReplaceFuncReentrant:
 		op.Repl = repls[r.n(len(repls))]
 		op.In2 = genInput(r, p, false)
+	case OpReplaceFuncPanic:
+		op.StartAt = r.n(3)
 	case OpMarshalRoundTrip:
 		op.Repl = repls[r.n(len(repls))]
 		op.StartAt = r.n(6)
